@@ -242,7 +242,9 @@ func concOp(r *rng, family string, priv int) string {
 		case 6:
 			return "tmul:0:4:1:1"
 		default:
-			return fmt.Sprintf("reduce:sum:4:%d", r.intn(3))
+			// the general branch of Dot with private destinations, then allocations: a struct handed
+			// to the pool twice would be given to two tensors
+			return []string{"dot:4:3:both.6.7", "dot:4:3:reuse.6", "dot:4:3:incr.7", fmt.Sprintf("slice:%d:0.1.1", priv), fmt.Sprintf("reduce:sum:4:%d", r.intn(3))}[r.intn(5)]
 		}
 	case "dotvm":
 		// vector . matrix: Dot transposes its matrix operand in place and takes it back afterwards
@@ -333,6 +335,9 @@ func genC18(tier string, r *rng, emit func(string)) {
 						ops := []string{fmt.Sprintf("new:rm:3,3:%d", 40+i)}
 						if fam == "errpath" {
 							ops = append(ops, "new:rm:2,2:0", "new:rm:3,3:0") // private tensors 6 (wrong size) and 7
+						}
+						if fam == "tmul" {
+							ops = append(ops, "new:rm:2,3:0", "new:rm:2,3:100") // private destinations 6 and 7 of Dot(4,3)
 						}
 						n := r.rangeInt(3, 8)
 						for j := 0; j < n; j++ {
